@@ -3,6 +3,18 @@
 //! This library aims to provide a compatible API with ZeroMQ patterns
 //! while leveraging Rust's safety and Tokio's asynchronous capabilities.
 
+// Verification schedule points: a no-op unless built with `--cfg rzmq_verif`.
+#[cfg(rzmq_verif)]
+macro_rules! verif_point {
+  ($label:expr) => {
+    $crate::verif::point($label)
+  };
+}
+#[cfg(not(rzmq_verif))]
+macro_rules! verif_point {
+  ($label:expr) => {};
+}
+
 // These modules encapsulate different aspects of the ZMQ implementation.
 
 /// Defines the `Context`, which is the entry point for creating sockets.
